@@ -278,9 +278,19 @@ structure J04 where
 def uzOf (j : J04) (id : Int) : UZ := (j.zs.find? (·.id == id)).getD { id := id }
 def setUz (j : J04) (z : UZ) : J04 := { j with zs := z :: j.zs.filter (·.id != z.id) }
 
-def judge04Step (j : J04) (prev next : Step) (ln : Bytes) : J04 :=
+def judge04Step (j : J04) (prev0 next : Step) (ln : Bytes) : J04 :=
   let single := isSingle ln
   let cmd := cmdName ln
+  -- `:b ~` renumbers the buffers: the histories follow them slot by slot; a deleted buffer takes its history along
+  let renum := single && (cmd.replace "!" "") == "b" && ((splitCmd ln).2.2).headD 0 == 126 && prev0.bufs.length == next.bufs.length
+  let newId (id : Int) : Int :=
+    if !renum then id else
+    match prev0.bufs.find? (·.id == id) with
+    | some a => (match next.bufs.find? (·.slot == a.slot) with | some b => b.id | none => id)
+    | none => id
+  let prev : Step := if renum then { prev0 with bufs := prev0.bufs.map (fun a => { a with id := newId a.id }) } else prev0
+  let j : J04 := if renum then { j with zs := j.zs.map (fun z => { z with id := newId z.id }) } else j
+  let j : J04 := { j with zs := j.zs.filter (fun z => prev.bufs.any (·.id == z.id)) }
   let mentionsUndo := (str ln).contains "u" || (str ln).contains "redo"
   -- a (re)load in the middle of a command line clears the history at a text the judge does not see
   let mentionsLoad := ((str ln).splitOn "|").any (fun sg =>
